@@ -142,7 +142,7 @@ fn check(args: &[String]) -> i32 {
     let mut replay_paths: Vec<String> = vec![];
     if let Some(run) = rep.hang {
         let s = props::generate(&prop, seed, run, thorough);
-        let rf = ReplayFile { property: prop.clone(), class: "hang".into(), detail: format!("no progress within {} s", orchestrate::HANG_LIMIT_S), seed, run, unminimised_size: s.facts.size(), minimised_size: s.facts.size(), minimiser_executions: 0, trace: vec![], scenario: s };
+        let rf = ReplayFile { property: prop.clone(), class: "hang".into(), detail: format!("no progress within {} s", orchestrate::HANG_LIMIT_S), seed, run, unminimised_size: s.facts.size(), minimised_size: s.facts.size(), minimiser_executions: 0, trace: vec![], scenario: s, history: vec![], thorough };
         let _ = std::fs::create_dir_all(format!("{}/replays", orchestrate::out_dir()));
         let path = format!("{}/replays/{prop}-{seed}-{run}-hang.json", orchestrate::out_dir());
         let _ = std::fs::write(&path, serde_json::to_string_pretty(&rf).unwrap());
@@ -153,7 +153,7 @@ fn check(args: &[String]) -> i32 {
     }
     for (run, what) in &rep.aborted {
         let s = props::generate(&prop, seed, *run, thorough);
-        let rf = ReplayFile { property: prop.clone(), class: "process-abort".into(), detail: what.clone(), seed, run: *run, unminimised_size: s.facts.size(), minimised_size: s.facts.size(), minimiser_executions: 0, trace: vec![], scenario: s };
+        let rf = ReplayFile { property: prop.clone(), class: "process-abort".into(), detail: what.clone(), seed, run: *run, unminimised_size: s.facts.size(), minimised_size: s.facts.size(), minimiser_executions: 0, trace: vec![], scenario: s, history: vec![], thorough };
         let _ = std::fs::create_dir_all(format!("{}/replays", orchestrate::out_dir()));
         let path = format!("{}/replays/{prop}-{seed}-{run}-process-abort.json", orchestrate::out_dir());
         let _ = std::fs::write(&path, serde_json::to_string_pretty(&rf).unwrap());
@@ -164,7 +164,7 @@ fn check(args: &[String]) -> i32 {
     }
     let kf = known::load();
     for found in rep.violations.iter().take(10) {
-        match make_replay(&prop, seed, found, thorough) {
+        match make_replay(&prop, seed, found, thorough, workers) {
             Some((path, rf)) => {
                 if let Some(k) = known::matching(&kf, &rf) {
                     known_lines.push(format!("KNOWN-FINDING: property={prop} {}", k.text));
@@ -316,6 +316,15 @@ fn replay(path: &str) -> i32 {
                 Err(_) => return 2,
             }
         }
+    }
+    if !rf.history.is_empty() {
+        // the recorded violation depends on what the process executed before: repeat those runs first
+        let mut hctx = replica::Ctx::new(false);
+        for run in &rf.history {
+            let s = props::generate(&rf.property, rf.seed, *run, rf.thorough);
+            let _ = obs::guarded(|| props::execute(&mut hctx, &s));
+        }
+        println!("replayed {} earlier run(s) of the same process first: {:?}", rf.history.len(), &rf.history[..rf.history.len().min(12)]);
     }
     let mut ctx = replica::Ctx::new(true);
     let out = match obs::guarded(|| props::execute(&mut ctx, &rf.scenario)) {
